@@ -348,6 +348,7 @@ class Interp:
         self.summaries_used = set()
         self.opaque_bytes = set()        # FuncInfo of `-> bytes` helpers summarised as an unconstrained result
         self.opaque_calls = set()
+        self.int_prov: dict = {}          # symbol -> ('int', source term, base)
         self.birth: dict[int, State] = {}     # node oid -> state at the end of the loop iteration that produced it
 
     def pick(self, st, n, label=""):
@@ -1285,6 +1286,7 @@ class Interp:
                 return self.fresh_int(st, "div") if isinstance(op, ast.FloorDiv) else UnknownV("float")
             if isinstance(op, ast.BitXor):
                 r = self.fresh_int(st, "xor", 0)
+                self.int_prov[next(iter(r.lin.t))] = ("xor", la, lb)
                 return r
             if isinstance(op, (ast.BitAnd,)):
                 r = self.fresh_int(st, "and", 0)
@@ -1445,7 +1447,8 @@ class Interp:
         llo = self.as_lin(lo) if lo is not None else None
         lhi = self.as_lin(hi) if hi is not None else None
         if step is not None:
-            sv = step.value if isinstance(step, ConstV) else None
+            sl = self.as_lin(step)
+            sv = int(sl.c) if sl is not None and sl.is_const() else None
             if sv == -1:
                 # reversed slice x[a:b:-1]: at most a+1 bytes (a defaults to the end), at most len(x)
                 r = self.fresh_bytes(st, ("revslice", bb.term, llo, lhi), maxlen=L)
@@ -2041,7 +2044,12 @@ class Interp:
                 o = st.heap[a0.oid]
                 n = self.length_of(a0, st)
                 el = o["items"][0] if o["items"] else o.get("elem")
-                return BytesV(("bytes-of", repr(el)[:60]), n) if n is not None else self.fresh_bytes(st, ("bytes-of", repr(el)[:60]))
+                desc = repr(el)[:60]
+                if isinstance(el, IntV) and len(el.lin.t) == 1 and el.lin.c == 0 and next(iter(el.lin.t)) in self.int_prov:
+                    desc = self.int_prov[next(iter(el.lin.t))]
+                elif isinstance(el, IntV):
+                    desc = ("expr", el.lin)
+                return BytesV(("bytes-of", desc), n) if n is not None else self.fresh_bytes(st, ("bytes-of", desc))
             if isinstance(a0, TupleV):
                 return self.fresh_bytes(st, ("bytes-of-tuple",), exact=Lin(len(a0.items)))
             if isinstance(a0, ConstV) and isinstance(a0.value, (tuple, list, bytes)):
@@ -2056,8 +2064,16 @@ class Interp:
                     return ConstV(int(a0.value, *[x.value for x in args[1:]]) if name == "int" else ord(a0.value))
                 except Exception:   # noqa: BLE001
                     pass
-            return self.fresh_int(st, name, 0 if name == "ord" else None)
+            r = self.fresh_int(st, name, 0 if name == "ord" else None)
+            b0 = self.as_bytes(a0)
+            src = b0.term if b0 is not None else (a0.term if isinstance(a0, StrV) else ("?",))
+            base = args[1].value if len(args) > 1 and isinstance(args[1], ConstV) else (kwargs["base"].value if isinstance(kwargs.get("base"), ConstV) else 10)
+            self.int_prov[next(iter(r.lin.t))] = (name, src, base)
+            return r
         if name == "chr":
+            if isinstance(a0, IntV) and len(a0.lin.t) == 1 and a0.lin.c == 0:
+                sym = next(iter(a0.lin.t))
+                return StrV(("chr", self.int_prov.get(sym, ("?", sym))))
             return StrV(("chr", repr(a0)[:40]))
         if name == "str":
             return StrV(("str", repr(a0)[:40]))
